@@ -58,6 +58,10 @@ structure Cfg where
   mq : WakeCfg
   syncq : WakeCfg
   priq : PriCfg
+  /-- no method takes its mutex twice (no `Unlock(); Lock()` inside a method; only `cond.Wait` releases the lock): each
+      label of the transition system below is one uninterrupted critical section of the code. The theorems are about
+      this system, so they say something about the code only for configurations with `sectionsAtomic = true`. -/
+  sectionsAtomic : Bool
 deriving DecidableEq, Repr
 
 structure Facts where
@@ -70,10 +74,11 @@ structure Facts where
   closesStopChan : Bool    -- `Close`/`TryClose` close `stopChan` (what `WaitClose` callers block on), `TryClear` closes `clearChan`
   methodSets : Bool        -- no method of a queue type outside the modelled ones, in any file of its package
   priqLockCovered : Bool   -- PriQueue: `entries`/`curSeq` only touched under `mu`
+  fieldsPrivate : Bool     -- sibling files never select a queue's mutable / synchronisation field (no close without wake-up from outside)
 deriving DecidableEq, Repr
 
 def Facts.expected : Facts :=
-  ⟨⟨true, true⟩, ⟨true, true⟩, ⟨true, true⟩, ⟨true, true⟩, ⟨true, true⟩, ⟨true, true, true⟩, true, true, true⟩
+  ⟨⟨true, true⟩, ⟨true, true⟩, ⟨true, true⟩, ⟨true, true⟩, ⟨true, true⟩, ⟨true, true, true⟩, true, true, true, true⟩
 
 def Cfg.wake (c : Cfg) : Kind → WakeCfg
   | .q => c.q | .async => c.async | .mux => c.mux | .mq => c.mq | .syncq => c.syncq
@@ -91,7 +96,7 @@ def ProvedPri (p : PriCfg) : Prop := p.pushSignals = true ∧ p.popResignals = t
 instance : DecidablePred ProvedPri := fun p => by unfold ProvedPri; exact inferInstance
 
 def Proved (c : Cfg) : Prop :=
-  ProvedWake .q c.q ∧ ProvedWake .async c.async ∧ ProvedWake .mux c.mux ∧ ProvedWake .mq c.mq ∧
+  c.sectionsAtomic = true ∧ ProvedWake .q c.q ∧ ProvedWake .async c.async ∧ ProvedWake .mux c.mux ∧ ProvedWake .mq c.mq ∧
   ProvedWake .syncq c.syncq ∧ ProvedPri c.priq
 instance : DecidablePred Proved := fun c => by unfold Proved; exact inferInstance
 
